@@ -27,13 +27,13 @@ def keysetIdChars (ks : Keys) : List Char :=
 
 def keysetId (ks : Keys) : String := String.ofList (keysetIdChars ks)
 
+/-- The wire form of one (amount, point) pair (`none` for the point at infinity). -/
+def keyOfPoint (aP : Nat × Point) : Option (Nat × Bytes) := (serCompressed aP.2).map (fun b => (aP.1, b))
+
 /-- From points: serialise each in compressed form (`none` if a key is the point at infinity). -/
 def keysOfPoints : List (Nat × Point) → Option Keys
   | [] => some []
-  | (a, P) :: rest =>
-    match serCompressed P, keysOfPoints rest with
-    | some b, some ks => some ((a, b) :: ks)
-    | _, _ => none
+  | x :: rest => (keyOfPoint x).bind (fun k => (keysOfPoints rest).map (fun tl => k :: tl))
 
 def keysetIdOfPoints (ks : List (Nat × Point)) : Option String := (keysOfPoints ks).map keysetId
 
